@@ -79,13 +79,13 @@ PROPS["C13"] = dict(units=["r1cs_compl", "r1cs_fwd_compl", "r1cs_outer_compl"], 
                  "scalar multiplication gadget scalar_mul_le (arkworks default method over double_in_place / conditionally_select / add, all three under contract)",
                  "to_bits_le / to_bytes / value / cs", "histories of forcing operations longer than 4 on one lazy variable (absorbing-state argument, see DESIGN 2.6)"])
 
-M_SQRT = "M-SQRT: the constant-time Tonelli-Shanks `our_sqrt` of the minimal build returns a square root of every square (assumed; the four-case wrapper around it is proved). The Sarkar table routine of the default build is no longer assumed: unit ark_invsqrt proves it."
+M_SQRT = "M-SQRT (retired): both square-root routines are proved -- the Sarkar table routine of the default build in unit ark_invsqrt, the constant-time Tonelli-Shanks `our_sqrt` of the minimal build in unit min_invsqrt (loop invariant z^2 = t x, t^(2^(i-1)) = 1, c^(2^(i-1)) = -1)"
 M_ROOTS8 = "M-ROOTS8: h = g^(2^39) is a primitive 256th root of unity in the cyclic group Fq^*, hence every x with x^256 = 1 is an inverse power h^(-nu), nu < 256 (a statement about the constants q and g only; g^(2^47) = 1 != g^(2^46) is proved by compute)"
 PROPS["C09"] = dict(units=["ark_invsqrt", "min_invsqrt", "consts"],
     assumptions=[M_SQRT, M_ROOTS8, M_PRIME + " (Euler's criterion, no zero divisors, Fermat)", A_WF, A_ARK1 + " (incl. the generic Field::pow and Field::inverse of arkworks)",
                  "A-STD for invsqrt.rs: hashbrown::HashMap<Fq,u64> is a finite map keyed by the field value (insert / index, index panics on a miss), Vec push/pop, Vec -> Box<[T;256]> conversion panics unless the length is 256, u64::pow(2, e) = 2^e for e < 64, From<u64> for BigInteger"],
-    explanation="default build: Fq::sqrt_ratio_zeta (Sarkar 2020, 7+8+8+8+8+8 bit windows) is proved for ALL num, den: every table lookup hits (each looked-up value is shown to be a 256th root of unity from the previous lookup's equation; the first one from x5 = (num t)^M and Fermat), every table index is in bounds, the digit accumulator never overflows, and the result meets the four-case contract isqrt_ok by ring algebra from the last lookup's equation; SquareRootTables::new is proved to establish the table invariant (six 256-entry power tables, lookup table sound and -- by M-ROOTS8 -- complete). minimal build: non_arkworks_sqrt_ratio_zeta ensures isqrt_ok for all num, den given our_sqrt's contract; pow_le_limbs == mpow(x, limbs_val) by loop invariant for any slice length; constants (zeta non-square, M, (M-1)/2, zeta^((1-M)/2), g = zeta^M, Fr (r+1)/4) by compute",
-    not_decided=["our_sqrt loop invariant (Tonelli-Shanks) -- assumed (M-SQRT), bounded probe min.all", "Field::sqrt / legendre (arkworks generic routines over SQRT_PRECOMP, A-ARK-1; constants proved under C17) -- bounded probe field.*",
+    explanation="default build: Fq::sqrt_ratio_zeta (Sarkar 2020, 7+8+8+8+8+8 bit windows) is proved for ALL num, den: every table lookup hits (each looked-up value is shown to be a 256th root of unity from the previous lookup's equation; the first one from x5 = (num t)^M and Fermat), every table index is in bounds, the digit accumulator never overflows, and the result meets the four-case contract isqrt_ok by ring algebra from the last lookup's equation; SquareRootTables::new is proved to establish the table invariant (six 256-entry power tables, lookup table sound and -- by M-ROOTS8 -- complete). minimal build: our_sqrt (constant-time Tonelli-Shanks) returns a square root of every non-zero square by loop invariants (outer: z^2 = t x, t^(2^(i-1)) = 1, c^(2^(i-1)) = -1; inner: b = t^(2^(j-1))), non_arkworks_sqrt_ratio_zeta ensures isqrt_ok for all num, den; pow_le_limbs == mpow(x, limbs_val) by loop invariant for any slice length; constants (zeta non-square, M, (M-1)/2, zeta^((1-M)/2), g = zeta^M, Fr (r+1)/4) by compute",
+    not_decided=["Field::sqrt / legendre (arkworks generic routines over SQRT_PRECOMP, A-ARK-1; constants proved under C17) -- bounded probe field.*",
                  "the one-line static initialiser `SQRT_LOOKUP_TABLES = Lazy::new(|| SquareRootTables::new())` (once_cell)"])
 PROPS["C10"]["units"] = list(PROPS["C10"]["units"]) + ["fieldx_fq", "fieldx_fr", "fieldx_fp"]
 
